@@ -34,7 +34,7 @@ def run(ctx):
     facts = ctx.facts()
     thms = ctx.build_and_audit(["NutsProofs.Props.C10"])
     required = ["resolve_order_independent", "store_is_fold", "merge_deterministic", "before_strict_total",
-                "insert_sorted_perm", "deactivated_monotone", "conflict_resolved_by_covering_update",
+                "insert_sorted_perm", "deactivated_monotone", "conflict_resolved_by_covering_update", "stats_order_independent", "stats_are_what_the_states_imply",
                 "fact_map_built_fields_sorted", "fact_writer_has_no_map_range", "fact_conflicted_flag_read_unconditionally"]
     for r in required:
         if not any(t.endswith("Props." + r) for t in thms):
